@@ -135,7 +135,7 @@ func main() {
 		replay(c)
 		return
 	}
-	c.Rule("Skeletons: TLC enumerates (network shape with fork heights 2..12) x interval x initial-target class x (background regime b1, one free timestamp choice at every position, background b2) chains of 14 headers; a seeded sample is executed. Fork-edge skeletons: the same chains on 12 network shapes in which each fork height in turn (and all together) is 0 or 1, initial-target classes 1, 2, 6, nonce factor 7 or 1009; a seeded round-robin over (shape, class) is executed. Random chains: network shape x timestamp regime x seed, up to 3000+ headers, logged in windows (all fork heights, all pre-Oak retargets, periodic windows), plus probes that stop just after a pre-Oak retarget at height 500/1000/1500. Magnitude lattice: TLC (DifficultyMag) enumerates start (one per era and era boundary, 11) x required work (k*2^64/2^128/2^192 minus or plus a little, half/double/four times 2^64b, mainnet magnitude) x cumulative work (the j-th addition carries across limb boundary wb, or plain) x work estimate (retargeting pushes up / down / in balance) x timestamp choice; the harness constructs the state and applies 7 headers; a core (both integer-work eras x every magnitude class with the binding push) is always executed, the rest is a seeded sample stratified by (start, limb boundary). Long chains from genesis at initial difficulties 2^63..2^66, 2^127..2^128, 2^192.., 2^75. One evaluation = one header applied by ApplyHeader and ApplyBlock, with six ValidateHeader candidates and two fork-choice pairs, validated by TLC. Non-trivial = distinct (network, difficulty, oak state, timestamp) step in which the required work changed or which lies at a fork height.")
+	c.Rule("Skeletons: TLC enumerates (network shape with fork heights 2..12) x interval x initial-target class x (background regime b1, one free timestamp choice at every position, background b2) chains of 14 headers; a seeded sample is executed. Fork-edge skeletons: the same chains on 12 network shapes in which each fork height in turn (and all together) is 0 or 1, initial-target classes 1 and 6 (quick), nonce factor 7 or 1009; a seeded round-robin over (shape, class) is executed. Random chains: network shape x timestamp regime x seed, up to 3000+ headers, logged in windows (all fork heights, all pre-Oak retargets, periodic windows), plus probes that stop just after a pre-Oak retarget at height 500/1000/1500. Magnitude lattice: TLC (DifficultyMag) enumerates start (one per era and era boundary, 11) x required work (k*2^64/2^128/2^192 minus or plus a little, half/double/four times 2^64b, mainnet magnitude) x cumulative work (the j-th addition carries across limb boundary wb, or plain) x work estimate (retargeting pushes up / down / in balance) x timestamp choice; the harness constructs the state and applies 7 headers; a core (both integer-work eras x every magnitude class with the binding push) is always executed, the rest is a seeded sample stratified by (start, limb boundary). Long chains from genesis at initial difficulties 2^63..2^66, 2^127..2^128, 2^192.., 2^75. One evaluation = one header applied by ApplyHeader and ApplyBlock, with six ValidateHeader candidates and two fork-choice pairs, validated by TLC. Non-trivial = distinct (network, difficulty, oak state, timestamp) step in which the required work changed or which lies at a fork height.")
 	c.Assume("BigNat (spec/lib, cross-checked against TLC integers by BigNatTest) is the arithmetic oracle")
 	c.Assume("initial targets and the ASIC reset target have difficulty < 2^200; above that Work.mul64 overflows by construction (noted, not claimed)")
 	c.Assume("constructed states (magnitude lattice): height, required work, cumulative work, work estimate and oak time are chosen by the specification, the fields of the other representation are their floored inverses (re-checked by TLC on the reset line), the eleven previous timestamps are on schedule; such states are what a network with that initial target / ASIC reset target and enough blocks reaches, headers cannot be mined at these difficulties, so ApplyHeader/ApplyBlock (which do not check proof of work) are driven directly and ValidateHeader is only expected to refuse for insufficient work")
@@ -201,7 +201,7 @@ func main() {
 		zcells[k] = append(zcells[k], s)
 	}
 	sort.Strings(znames)
-	nZero := c.Pick(144, 6000)
+	nZero := c.Pick(120, 6000)
 	for round, n := 0, 0; n < nZero; round++ {
 		took := false
 		for _, k := range znames {
